@@ -190,6 +190,9 @@ void mp::internal::TextReader<Locale>::ReadHeader(NLHeader &header) {
     double tmp;
     if (!ReadOptionalDouble(tmp))
       break;
+    if (!(tmp >= std::numeric_limits<long>::min() &&
+          tmp < -static_cast<double>(std::numeric_limits<long>::min())))
+      break;                       // not representable as long
     header.ampl_options[i] = (long)tmp;
     if (header.ampl_options[i] != tmp)
       break;
